@@ -4,6 +4,9 @@ cd "$(dirname "$0")/.."
 if [ -n "$(git -C /repo status --porcelain)" ]; then echo "/repo not clean"; exit 2; fi
 for d in seeded/*/; do
   id=$(basename $d); pid=${id%%-*}
+  # a change whose own property check cannot see it (it lives in a different layer) names the check that does
+  alt=$(python3 -c "import json,sys; print(' '.join(json.load(open('$d/meta.json')).get('check_with', [])))")
+  if [ -n "$alt" ]; then pid=$alt; fi
   git -C /repo apply "$PWD/$d/patch.diff" || { echo "$id apply-failed"; continue; }
   res=""
   for tier in quick thorough; do
